@@ -141,7 +141,7 @@ int main(void){
 ''' % (N + 1, BASE, L_, BASE, N, BASE)
 
 
-def run_cbmc(src_text, unwind, tag, timeout=1500):
+def run_cbmc(src_text, unwind, tag, timeout=1500, unwindset=None):
     timeout = int(os.environ.get('C19_CBMC_TIMEOUT', timeout))
     d = os.path.join(build.BUILD, 'c19')
     os.makedirs(d, exist_ok=True)
@@ -150,7 +150,7 @@ def run_cbmc(src_text, unwind, tag, timeout=1500):
         f.write(src_text)
     t0 = time.time()
     try:
-        p = subprocess.run(['cbmc', path, '--unwind', str(unwind), '--unwinding-assertions', '--trace'], capture_output=True, text=True, timeout=timeout)
+        p = subprocess.run(['cbmc', path, '--unwind', str(unwind)] + (['--unwindset', unwindset] if unwindset else []) + ['--unwinding-assertions', '--trace'], capture_output=True, text=True, timeout=timeout)
         out = p.stdout
     except subprocess.TimeoutExpired:
         out = 'TIMEOUT'
@@ -187,8 +187,8 @@ def work(item):
         code, size = gen_c(N, False)
         src = code + '\n' + shared_harness(N, prefix, threads)
         nconc = sum(len(t) for t in threads)
-        unwind = nconc + 1
-        r = run_cbmc(src, unwind, 'sh%d_%d_%s' % (N, prefix, '-'.join(''.join(t) for t in threads)), timeout=1500 if tier == 'quick' else 3000)
+        unwind = nconc + 1                   # retry loops; the constructor's loop over the N entries gets its own bound (--unwindset)
+        r = run_cbmc(src, unwind, 'sh%d_%d_%s' % (N, prefix, '-'.join(''.join(t) for t in threads)), timeout=1500 if tier == 'quick' else 3000, unwindset='f_c_init.0:%d' % (N + 2))
         name = 'shared cache capacity %d, %d sequential inserts, then threads %s (every interleaving of the atomic steps, unwind %d)' % (N, prefix, ' | '.join(','.join(t) for t in threads), unwind)
     else:
         code, size = gen_c(N, kind == 'seq-tls')
